@@ -404,6 +404,26 @@ def encoding_relation(rep, ex: Explorer, cls=CI):
                     if mv and mf:
                         same = _name_index(mv[0]) == _name_index(mf[0])
                         rep.check(same, "KEY.no-positional", f"{site}:{ev.node.lineno}", "mv/mf index", "mv and mf of one constraint carry the same index", extracted=f"{_name_index(mv[0])} / {_name_index(mf[0])}", required="equal", function=site)
+        # the result: per conditional with a falsifying world both minimum encodings and the acceptance constraint
+        rv = view(p.state, p.outcome[1])
+        if isinstance(rv, tuple) and rv[0] == "list":
+            from ..absvals import FormulaV
+
+            have = set()
+            stray = []
+            for sg in rv[1]:
+                if sg[0] in ("each", "each*") and sg[2] == KEYS_D and sg[3] == ("not", ("empty", ("fsums", sg[1]))):
+                    it = sg[4]
+                    if isinstance(it, tuple) and it[:1] == ("sym",) and it[1][0] == "minenc":
+                        nm, fam = it[1][1], it[1][2]
+                        have.add((_name_prefix(nm) if nm[0] == "isym" else "?", fam[1][0] if isinstance(fam, tuple) and len(fam) > 1 and isinstance(fam[1], tuple) else "?"))
+                    elif isinstance(it, FormulaV):
+                        have.add("rel")
+                else:
+                    stray.append(repr(sg)[:60])
+            want = {("mv_", "vsums"), ("mf_", "fsums"), "rel"}
+            rep.check(have == want and not stray, "C.relations", site, "result holds all three parts", "for a conditional with a falsifying world the result holds both minimum encodings and the acceptance constraint, and nothing else",
+                      extracted=str(sorted(map(str, have))) + (f" + {stray}" if stray else ""), required=str(sorted(map(str, want))), function=site)
     rep.floor("acceptance constraints", n_rel, 1)
     rep.floor("minimum encodings in encoding()", n_me, 1)
 
